@@ -3,7 +3,7 @@
    a tree rooted at SOURCE_FILE unless the validation pass panics (not proved). *)
 From Coq Require Import NArith ZArith Arith List Bool Lia.
 From OQ3 Require Import gen.Kinds Model.Lexer Model.Lexed Model.Parser Model.Grammar Model.Builder
-  Proofs.LexedP Proofs.MarkerB Proofs.ProcessB Proofs.BuilderB Proofs.PipelineP.
+  Proofs.LexedP Proofs.MarkerB Proofs.ProcessB Proofs.JointB Proofs.BuilderB Proofs.BuilderP Proofs.PipelineP.
 Import ListNotations.
 Local Open Scope nat_scope.
 
@@ -54,9 +54,123 @@ Proof.
   rewrite <- Hl. rewrite (cnt_nt_all ks0 T Hl). reflexivity.
 Qed.
 
+(* ---------------- the parser input, described without the accumulator ---------------- *)
+Definition fj (k : N) (t : list ch) : bool := N.eqb k K_FLOAT_NUMBER && negb (ends_with_dot t).
+Definition nextnt (ks : list N) (ts : list (list ch)) : bool :=
+  match ks, ts with k :: _, _ :: _ => negb (is_trivia k) | _, _ => false end.
+Fixpoint inspec (ks : list N) (ts : list (list ch)) : list (N * bool) :=
+  match ks, ts with
+  | k :: ks', t :: ts' =>
+      if is_trivia k then inspec ks' ts' else (k, fj k t || nextnt ks' ts') :: inspec ks' ts'
+  | _, _ => []
+  end.
+Definition sethead (acc : list (N * bool)) : list (N * bool) :=
+  match acc with (k0, _) :: a => (k0, true) :: a | [] => [] end.
+
+Lemma to_input_loop_spec ks : forall ts wj acc,
+  to_input_loop ks ts wj acc = rev (if wj && nextnt ks ts then sethead acc else acc) ++ inspec ks ts.
+Proof.
+  induction ks as [|k ks IH]; intros ts wj acc.
+  - cbn. rewrite andb_false_r, app_nil_r. reflexivity.
+  - destruct ts as [|t ts].
+    + cbn. rewrite andb_false_r, app_nil_r. reflexivity.
+    + cbn [to_input_loop inspec nextnt]. destruct (is_trivia k) eqn:Ek; cbn [negb].
+      * rewrite IH. cbn [andb]. rewrite andb_false_r. reflexivity.
+      * rewrite IH. cbn [andb]. rewrite andb_true_r. fold (fj k t).
+        set (acc1 := if wj then sethead acc else acc).
+        replace (match acc with (k0, _) :: a => (k0, true) :: a | [] => [] end) with (sethead acc) by reflexivity.
+        fold acc1. destruct (nextnt ks ts); cbn [sethead rev]; rewrite <- app_assoc; cbn [app];
+          [rewrite orb_true_r|rewrite orb_false_r]; reflexivity.
+Qed.
+
+Definition cntl (r : nat) (ks : list N) : nat := length (filter ntk (firstn r ks)).
+Lemma inspec_nth ks : forall ts r,
+  r < length ts -> length ts <= length ks -> ntk (nth r ks K_EOF) = true ->
+  nth_error (inspec ks ts) (cntl r ks) =
+    Some (nth r ks K_EOF, fj (nth r ks K_EOF) (nth r ts []) || ((S r <? length ts) && ntk (nth (S r) ks K_EOF))).
+Proof.
+  induction ks as [|k ks IH]; intros ts r Hr Hl Hn; [cbn in Hl; lia|].
+  destruct ts as [|t ts]; [cbn in Hr; lia|].
+  destruct r as [|r].
+  - cbn [nth] in *. unfold cntl. cbn [firstn filter length inspec]. unfold ntk in Hn.
+    destruct (is_trivia k); [discriminate|]. cbn [nth_error]. f_equal. f_equal. f_equal.
+    unfold nextnt. cbn [length] in *. destruct ks as [|k' ks], ts as [|t' ts]; cbn [length] in *; try lia; cbn; try reflexivity;
+      unfold ntk; destruct (is_trivia k'); reflexivity.
+  - cbn [nth length] in *. unfold cntl. cbn [firstn filter inspec].
+    fold (cntl r ks). unfold ntk at 1. destruct (is_trivia k); cbn [negb length nth_error].
+    + pose proof (IH ts r ltac:(lia) ltac:(lia) Hn) as H. unfold cntl in H. rewrite H. reflexivity.
+    + pose proof (IH ts r ltac:(lia) ltac:(lia) Hn) as H. unfold cntl in H. rewrite H. reflexivity.
+Qed.
+
+Lemma firstn_snoc {A} (l : list A) r d : r < length l -> firstn (S r) l = firstn r l ++ [nth r l d].
+Proof.
+  revert r. induction l as [|x l IH]; intros [|r] H; cbn in H; try lia; [reflexivity|].
+  cbn [nth]. change (firstn (S (S r)) (x :: l)) with (x :: firstn (S r) l).
+  change (firstn (S r) (x :: l)) with (x :: firstn r l). rewrite (IH r) by lia. reflexivity.
+Qed.
+Lemma cnt_nt_cntl kinds (texts : list (list ch)) r : r <= length kinds -> cnt_nt kinds r = cntl r kinds.
+Proof.
+  induction r as [|r IH]; intros Hr; [reflexivity|].
+  rewrite cnt_nt_S, IH by lia. unfold cntl. rewrite (firstn_snoc kinds r K_EOF) by lia.
+  rewrite filter_app, app_length. cbn [filter]. unfold ntriv, kind_i, ntk. destruct (is_trivia (nth r kinds K_EOF)); reflexivity.
+Qed.
+
+(* a joint non-float parser token is directly followed by a non-trivia raw token *)
+Lemma adjacency l :
+  let lx := lexed_of l in
+  let kinds := removelast (lkinds lx) in
+  forall r, r < blen_tokens (ltexts lx) -> ntriv kinds r = true -> adj (to_input lx) (cnt_nt kinds r) ->
+  r + 1 < blen_tokens (ltexts lx) /\ ntriv kinds (r + 1) = true.
+Proof.
+  cbv zeta. unfold lexed_of. pose proof (lex_conv_spec (tokenize l) 0%N 0%N) as H.
+  destruct (lex_conv (tokenize l) 0%N 0%N) as [[ks ss] es]. destruct H as [H1 _].
+  unfold to_input, blen_tokens. cbn [lkinds ltexts]. subst ks.
+  set (ks0 := map (fun t => snd (syntax_kind_of t)) (tokenize l)).
+  set (T := map ttext (tokenize l)).
+  assert (length T = length ks0) as Hl by (unfold T, ks0; rewrite !map_length; reflexivity).
+  rewrite removelast_last. intros r Hr Hn [Hj Hk].
+  rewrite to_input_loop_spec in Hj, Hk. cbn [andb rev app] in Hj, Hk.
+  rewrite (cnt_nt_cntl ks0 T r) in Hj, Hk by lia.
+  assert (nth r (ks0 ++ [K_EOF]) K_EOF = nth r ks0 K_EOF) as En by (apply app_nth1; lia).
+  assert (cntl r (ks0 ++ [K_EOF]) = cntl r ks0) as Ec.
+  { unfold cntl. rewrite firstn_app. replace (r - length ks0) with 0 by lia. cbn [firstn]. rewrite app_nil_r. reflexivity. }
+  pose proof (inspec_nth (ks0 ++ [K_EOF]) T r Hr) as Hs.
+  rewrite En, Ec in Hs. specialize (Hs ltac:(rewrite app_length; cbn; lia) ltac:(exact Hn)).
+  unfold joint_at in Hj. unfold kind_at in Hk. rewrite Hs in Hj, Hk.
+  unfold fj in Hj. apply N.eqb_neq in Hk. rewrite Hk in Hj. cbn [andb orb] in Hj.
+  apply andb_true_iff in Hj. destruct Hj as [Hlt Hnx]. apply Nat.ltb_lt in Hlt.
+  split; [lia|]. unfold ntriv, kind_i. replace (r + 1) with (S r) by lia.
+  rewrite app_nth1 in Hnx by lia. exact Hnx.
+Qed.
+
+(* tokens of the final events satisfy the joint condition *)
+Lemma etoksn_app a b : etoksn (a ++ b) = etoksn a ++ etoksn b.
+Proof. induction a as [|e a IH]; cbn [app etoksn]; [reflexivity|]. destruct e; rewrite IH; reflexivity. Qed.
+Lemma etoksn_sum l : list_sum (etoksn (rev l)) = toksum l.
+Proof.
+  induction l as [|e l IH]; [reflexivity|]. cbn [rev toksum]. rewrite etoksn_app, list_sum_app, IH.
+  destruct e; cbn [etoksn tokn]; cbn; lia.
+Qed.
+Lemma tw_jwl inp l : tw inp l -> jwl inp 0 (etoksn (rev l)).
+Proof.
+  induction l as [|e l IH]; [intros _; exact I|]. cbn [tw rev]. intros [Ht He].
+  rewrite etoksn_app. apply jwl_app. split; [apply IH; exact Ht|].
+  rewrite etoksn_sum. destruct e; cbn [etoksn jwl]; auto.
+Qed.
+
+(* the parser's steps carry joint tokens only *)
+Lemma run_parser_joint inp st : run_parser inp = Steps st -> jwl inp 0 (stoksn st).
+Proof.
+  unfold run_parser. pose proof (source_file_jw inp (fuel_for inp)) as HJ.
+  destruct (source_file inp (tie inp (fuel_for inp)) init_state) as [[] s|w|]; try discriminate.
+  destruct (live s); [|discriminate]. destruct (process (rev (evs s))) as [st'|] eqn:Ep; [|discriminate].
+  intros H. injection H as <-. rewrite (process_toks _ _ Ep). apply tw_jwl. apply HJ.
+Qed.
+
+(* for every text: no hang, no panic before validation, and the tree spells the whole text *)
 Theorem parse_source_total l :
   match parse_source l with
-  | POk r => tree_kind (pr_tree r) = K_SOURCE_FILE
+  | POk r => tree_kind (pr_tree r) = K_SOURCE_FILE /\ Builder.tree_text (pr_tree r) = l
   | PPanic stage _ => stage = 4%N
   | PNoTree _ => False
   | PHang => False
@@ -64,18 +178,23 @@ Theorem parse_source_total l :
 Proof.
   unfold parse_source.
   destruct (run_parser_tree (to_input (lexed_of l)) (to_input_ne_eof l)) as [st [E HT]].
+  pose proof (run_parser_joint _ _ E) as HJ.
   rewrite E. rewrite (ntoks_lexed l) in HT.
-  destruct (intersperse_total _ _ (lstarts (lexed_of l)) st HT) as [out [eof [Ei [HG [HE Hd]]]]].
+  destruct (intersperse_total _ _ (lstarts (lexed_of l)) _ (adjacency l) st HT HJ) as [out [Ei [HG [HE Hd]]]].
   rewrite Ei.
   destruct (tree_build_total out HG HE Hd) as [c [errs Et]]. rewrite Et.
   destruct (validate (Node K_SOURCE_FILE c) 0); [|reflexivity].
-  cbn [tree_kind]. rewrite N.eqb_refl. reflexivity.
+  cbn [tree_kind]. rewrite N.eqb_refl. cbn [pr_tree]. split; [reflexivity|].
+  rewrite (tree_build_text _ _ _ _ _ _ Et). change (rev (@nil tree)) with (@nil tree).
+  cbn [forest_text flat_map frames_text app].
+  destruct (intersperse_text _ _ _ _ _ _ Ei) as [b [Hb [Ht Heof]]].
+  rewrite Ht, (Heof eq_refl), firstn_all. apply lexed_texts_spell.
 Qed.
 
 (* the entry point that refuses to parse when lexing reported errors *)
 Theorem parse_check_lex_total l :
   match parse_check_lex l with
-  | POk r => tree_kind (pr_tree r) = K_SOURCE_FILE
+  | POk r => tree_kind (pr_tree r) = K_SOURCE_FILE /\ Builder.tree_text (pr_tree r) = l
   | PPanic stage _ => stage = 4%N
   | PNoTree _ => True
   | PHang => False
